@@ -8,7 +8,7 @@ LEVEL = "exploration"
 ORACLES = {
     "C14.bloom_counter": "BloomFilter / BloomFilterOnDisk / ExpandingBloomFilter: elements_added == number of add calls since clear() "
                          "(after a union: the estimate it was set to, plus later adds), across reload and close+reopen",
-    "C14.bloom_stats": "estimate_elements() within 1 of -(m/k) ln(1 - X/m) for X < m set bits; a union's elements_added is that "
+    "C14.bloom_stats": "(plain, on-disk after every step; counting Bloom at irregular points of the history) estimate_elements() within 1 of -(m/k) ln(1 - X/m) for X < m set bits; a union's elements_added is that "
                        "estimate; current_false_positive_rate() within 1e-9 relative of (1 - e^(-k n/m))^k with n = elements_added",
     "C14.expanding_counter": "ExpandingBloomFilter / RotatingBloomFilter: elements_added == number of add calls, also across push/pop/reload",
     "C14.cbloom_counter": "CountingBloomFilter: elements_added == net sum of added minus removed amounts",
@@ -73,7 +73,7 @@ def run_case(case, ctx):
     elif t == "exp":
         expanding.ExpandingDriver(case, ctx, {"counter": "C14.expanding_counter"}).run()
     elif t == "cbloom":
-        cbloom.CBloomDriver(case, ctx, {"counter": "C14.cbloom_counter"}).run()
+        cbloom.CBloomDriver(case, ctx, {"counter": "C14.cbloom_counter", "stats": "C14.bloom_stats"}).run()
     elif t == "cms":
         cms.CmsDriver(case, ctx, {"counter": "C14.cms_counter"}).run()
     elif t == "cuckoo":
